@@ -298,12 +298,14 @@ package genql
 //@   ensures err-not-ok[C19,C04]: err != nil ==> !result0
 
 //@ func (*Join).ParallelJoinFunc$1
+//@   writes slice
 //@   requires free: !held(&mut)
 //@   guarded slice firstErr by mut
 //@   absorbs (*Join).JoinMatchFunc : recorded in firstErr (clause recorded), returned by the parent after wg.Wait
 //@   ensures recorded[C19,C10]: called(JoinMatchFunc) && callresult(JoinMatchFunc, 2) != nil ==> firstErr != nil
 
 //@ func (*Join).ParallelHashJoinFunc$1
+//@   writes slice
 //@   requires free: !held(&mut)
 //@   guarded slice firstErr by mut
 //@   absorbs (*Join).HashJoinMatchFunc : recorded in firstErr (clause recorded), returned by the parent after wg.Wait
@@ -605,6 +607,7 @@ package genql
 
 //@ func ExecGroupBy
 //@   order[C03]
+//@   writes grouped[ref]
 
 // ---------------------------------------------------------------------------
 // C06: DISTINCT and UNION
@@ -627,3 +630,115 @@ package genql
 //@ func IsSelectAllAggregate
 //@   loop 0 invariant first-is-aliased[C06,C03]: rangeindex >= 0 ==> typeis(query.selectDefinition.Exprs[0], *sqlparser.AliasedExpr)
 //@   ensures star-is-not-aggregate[C06,C03]: len(query.selectDefinition.Exprs) > 0 && typeis(query.selectDefinition.Exprs[0], *sqlparser.StarExpr) ==> !result
+
+// ---------------------------------------------------------------------------
+// C09: path evaluation. ExecReader is callable directly and has no recover above it: every panic site below it is claimed.
+
+//@ func SelectDimension
+//@   safety[C09]
+//@   frame[C09]
+//@   ensures no-dimension[C09]: len(dimensions) == 0 ==> err == nil && result == data
+//@   ensures wrong-shape[C09]: len(dimensions) > 0 && !typeis(data, []any) ==> err != nil && result == nil
+//@   ensures index-out-of-range[C09]: len(dimensions) > 0 && typeis(data, []any) && dimensions[0] != nil && dimensions[0].selectorType == INDEX &&
+//@     | dimensions[0].indexSelector != -1 && (dimensions[0].indexSelector < 0 || dimensions[0].indexSelector >= len(data.([]any))) ==> err != nil && result == nil
+
+//@ func SelectMany
+//@   safety[C09]
+//@   frame[C09]
+
+//@ func Unwind
+//@   safety[C09]
+//@   frame[C09]
+//@   ensures depth-zero[C09]: depth == 0 ==> result == data
+
+//@ func SelectObject
+//@   safety[C09]
+//@   frame[C09]
+
+//@ func ReaderExecutor
+//@   safety[C09]
+//@   frame[C09]
+//@   ensures no-selector[C09]: len(selectors) == 0 ==> err == nil && result == data
+
+//@ func Reader
+//@   safety[C09]
+//@   frame[C09]
+//@   ensures no-selector[C09]: len(selectors) == 0 ==> err == nil && result == data
+//@   ensures null[C09]: len(selectors) > 0 && data == nil ==> err == nil && result == nil
+
+//@ func Mix
+//@   safety[C09]
+//@   frame[C09]
+//@ func MixArray
+//@   safety[C09]
+//@   frame[C09]
+//@ func MixObject
+//@   safety[C09]
+//@   frame[C09]
+//@ func Distinct
+//@   safety[C09]
+//@   frame[C09]
+
+//@ func (*IndexSelector).GetType
+//@   ensures field[C09]: result == indexSelector.selectorType
+//@   modifies nothing
+//@ func (*IndexSelector).GetIndex
+//@   ensures field[C09]: result == indexSelector.indexSelector
+//@   modifies nothing
+//@ func (*IndexSelector).GetRange
+//@   ensures pair[C09]: len(result) == 2
+
+// C09: the selector parser takes arbitrary text
+//@ func ReadIndex
+//@   safety[C09]
+//@   frame[C09]
+//@ func ReadRange
+//@   safety[C09]
+//@   frame[C09]
+//@ func ParseArray
+//@   safety[C09]
+//@   frame[C09]
+//@   ensures shape[C09]: err == nil ==> typeis(result, []*IndexSelector) || typeis(result, KeepDimension)
+//@   ensures failed[C09]: err != nil ==> result == nil
+//@ func ParsePipe
+//@   safety[C09]
+//@   frame[C09]
+//@ func ParseSelector
+//@   safety[C09]
+//@   frame[C09]
+//@   at-call append assert function-has-a-plain-name[C09]: typeis(appended, TopLevelFunctionSelector) ==> callresult(isFunctionName, 0)
+//@ func isFunctionName
+//@   safety[C09]
+//@   ensures non-empty[C09]: len(name) == 0 ==> !result
+//@ func parsedSelectors
+//@   safety[C09]
+//@   frame[C09]
+//@ func ExecReader
+//@   safety[C09]
+//@   frame[C09]
+
+// C09: what the steps mean, clause by clause
+//@ func SelectDimension
+//@   ensures index-in-range[C09]: len(dimensions) == 1 && typeis(data, []any) && dimensions[0] != nil && dimensions[0].selectorType == INDEX &&
+//@     | dimensions[0].indexSelector >= 0 && dimensions[0].indexSelector < len(data.([]any)) ==> err == nil && result == data.([]any)[dimensions[0].indexSelector]
+//@ func ReadIndex
+//@   ensures natural[C09]: err == nil ==> result >= 0
+//@   ensures failed[C09]: err != nil ==> result == 0
+//@ func ReadRange
+//@   ensures range[C09]: err == nil ==> result != nil && result.selectorType == RANGE
+//@   ensures failed[C09]: err != nil ==> result == nil
+//@ func NewIndex[int]
+//@   ensures index[C09]: result != nil && fresh(result) && result.selectorType == INDEX && result.indexSelector == value
+//@ func NewIndex[[2]int]
+//@   ensures range[C09]: result != nil && fresh(result) && result.selectorType == RANGE
+//@ func ReaderExecutor
+//@   ensures unknown-function[C09]: len(selectors) > 0 && typeis(selectors[0], TopLevelFunctionSelector) && !has(topLevelFunctions, string(selectors[0].(TopLevelFunctionSelector))) ==> err != nil && result == nil
+//@ func Reader
+//@   ensures key-on-a-scalar[C09]: len(selectors) > 0 && typeis(selectors[0], KeySelector) && (typeis(data, float64) || typeis(data, string) || typeis(data, bool)) ==> err != nil && result == nil
+//@   ensures index-on-a-non-array[C09]: len(selectors) > 0 && (typeis(selectors[0], []*IndexSelector) || typeis(selectors[0], KeepDimension)) && (typeis(data, float64) || typeis(data, string) || typeis(data, bool) || typeis(data, map[string]any)) ==> err != nil && result == nil
+//@   ensures missing-key[C09]: len(selectors) == 1 && typeis(selectors[0], KeySelector) && typeis(data, map[string]any) && !has(data.(map[string]any), string(selectors[0].(KeySelector))) ==> err == nil && result == nil
+//@   ensures present-key[C09]: len(selectors) == 1 && typeis(selectors[0], KeySelector) && typeis(data, map[string]any) && has(data.(map[string]any), string(selectors[0].(KeySelector))) ==> err == nil && result == data.(map[string]any)[string(selectors[0].(KeySelector))]
+//@ func Mix
+//@   ensures scalar[C09]: !typeis(data, []any) && !typeis(data, map[string]any) ==> err != nil && result == nil
+//@ func Distinct
+//@   ensures not-an-array[C09]: !typeis(data, []any) ==> err != nil && result == nil
